@@ -51,35 +51,42 @@ func sidOf(t hx.T) sid {
 
 // pmsg is one entry of a poster's programme.
 type pmsg struct {
-	kind byte // 'U' user, 'S' suspend, 'R' resume, 'O' other system message
-	z    int64
+	kind  byte // 'U' user, 'S' suspend, 'R' resume, 'O' other system message, 'B' a MessageBatch
+	z     int64
+	parts []int64 // 'B': payloads of the batch's parts (z = payload of the batch message itself)
 }
 
 func (p pmsg) term() any {
 	switch p.kind {
+	case 'B':
+		return hx.C("XBatch", hx.Norm(p.parts), p.z)
 	case 'U':
-		return hx.C("PUser", p.z)
+		return hx.C("X", hx.C("PUser", p.z))
 	case 'S':
-		return hx.C("PSys", "SSuspend")
+		return hx.C("X", hx.C("PSys", "SSuspend"))
 	case 'R':
-		return hx.C("PSys", "SResume")
+		return hx.C("X", hx.C("PSys", "SResume"))
 	}
-	return hx.C("PSys", hx.C("SOther", p.z))
+	return hx.C("X", hx.C("PSys", hx.C("SOther", p.z)))
 }
 
 func pmsgOf(t hx.T) pmsg {
 	switch t.Name {
+	case "X":
+		return pmsgOf(t.Term(0))
+	case "XBatch":
+		return pmsg{kind: 'B', z: t.Int(1), parts: t.Ints(0)}
 	case "PUser":
-		return pmsg{'U', t.Int(0)}
+		return pmsg{kind: 'U', z: t.Int(0)}
 	case "PSys":
 		s := t.Term(0)
 		switch s.Name {
 		case "SSuspend":
-			return pmsg{'S', 0}
+			return pmsg{kind: 'S'}
 		case "SResume":
-			return pmsg{'R', 0}
+			return pmsg{kind: 'R'}
 		case "SOther":
-			return pmsg{'O', s.Int(0)}
+			return pmsg{kind: 'O', z: s.Int(0)}
 		}
 	}
 	panic("c09: bad programme entry " + t.Name)
@@ -144,6 +151,14 @@ func opsOf(t hx.T) (config, []sid) {
 // ---------------------------------------------------------------- messages, invoker, dispatcher
 
 type userMsg struct{ poster, payload int64 }
+
+// batchMsg is an actor.MessageBatch: PostUserMessage posts its parts one by one, then the batch itself
+type batchMsg struct {
+	poster, payload int64
+	parts           []interface{}
+}
+
+func (b *batchMsg) GetMessages() []interface{} { return b.parts }
 type otherMsg struct{ poster, z int64 }
 
 // recording actor.MessageInvoker (only ever called on the consumer goroutine)
@@ -156,6 +171,8 @@ type invoker struct {
 func (v *invoker) InvokeUserMessage(msg interface{}) {
 	switch u := msg.(type) {
 	case *userMsg:
+		v.deliveredU = append(v.deliveredU, hx.Pair{A: u.poster, B: u.payload})
+	case *batchMsg:
 		v.deliveredU = append(v.deliveredU, hx.Pair{A: u.poster, B: u.payload})
 	default:
 		v.deliveredU = append(v.deliveredU, hx.Pair{A: int64(-1), B: int64(-1)})
@@ -575,6 +592,12 @@ func execute(c config, choose chooser) result {
 			e.register(th)
 			for _, pm := range prog {
 				switch pm.kind {
+				case 'B': // ONE call: the mailbox posts every part, then the batch itself
+					b := &batchMsg{poster: i, payload: pm.z}
+					for _, p := range pm.parts {
+						b.parts = append(b.parts, &userMsg{i, p})
+					}
+					mb.PostUserMessage(b)
 				case 'U':
 					mb.PostUserMessage(&userMsg{i, pm.z})
 				case 'S':
